@@ -62,6 +62,11 @@ def single_param_groups(seed, n):
         ("Debug", "type", [("name", "identbool", "Other"), ("named_field", "bool", False)]),
         ("Debug", "type", [("bound", "bound", ("custom", ["G: ::core::fmt::Debug"]))]),
         ("Debug", "type", [("bound", "bound", ("none",))]),
+        ("Debug", "type", [("bound", "bound", ("all",))]),
+        ("Hash", "type", [("bound", "bound", ("all",))]),
+        ("Debug", "type", [("bound", "bound", ("custom", []))]),
+        ("Ord", "field", [("rank", "int", -16)]),
+        ("PartialOrd", "field", [("rank", "int", 4096), ("method", "path", "::verif_rt::pcmp_rev")]),
         ("Clone", "type", [("bound", "bound", ("custom", ["G: ::core::clone::Clone", "G: 'static"]))]),
         ("Default", "type", [("new", "flagbool", True)]),
         ("Default", "type", [("new", "flagbool", True), ("bound", "bound", ("none",))]),
